@@ -196,3 +196,9 @@ package skiplist
 //@           cmpv(it.comp, old(it.node).key, deref(old(it.keyHigher))) == 0 ==> done == nil && it.doneNext
 //@   modifies it.node, it.doneNext
 //@   safety on
+
+// cmpOKb(c): consistency of a comparator over byte-slice keys (contents).
+//@ spec func cmpOKb(c Ref) Bool = (forall a Bytes :: cmpv(c, a, a) == 0) &&
+//@      (forall a Bytes, b Bytes :: (cmpv(c, a, b) > 0 <==> cmpv(c, b, a) < 0) && (cmpv(c, a, b) == 0 <==> cmpv(c, b, a) == 0)) &&
+//@      (forall a Bytes, b Bytes, d Bytes :: cmpv(c, a, b) == 0 && cmpv(c, b, d) == 0 ==> cmpv(c, a, d) == 0) &&
+//@      (forall a Bytes, b Bytes, d Bytes :: cmpv(c, a, b) == 0 && cmpv(c, b, d) != 0 ==> cmpv(c, a, d) != 0)
